@@ -396,6 +396,12 @@ namespace
       {
         if(ex == EX_REJECT)
           r.fails.emplace_back("accepted", "input violates the format (" + what() + ") but was parsed without error");
+        if(ex == EX_SAME)
+        {
+          Parsed ps = parse_mesh(sm.text, sm.default_type, true, false);
+          if(ps.kind != K_OK || ps.written != p.written)
+            r.fails.emplace_back("changed", "input must be equivalent to the seed (" + what() + ") but is parsed into something else: " + printable(p.written, 600));
+        }
         // whatever was accepted must be a fixed point of write o parse
         Parsed p2 = parse_mesh(p.written, sm.default_type, true, false);
         r.parses = 2;
@@ -406,6 +412,8 @@ namespace
       }
       else if(!rejected_cleanly(p.kind))
         r.fails.emplace_back(std::string("undocumented exception ") + kind_name(p.kind), "parser terminated with " + p.what + " (" + what() + ")");
+      else if(ex == EX_SAME)
+        r.fails.emplace_back("rejected", std::string("input must be equivalent to the seed (") + what() + ") but was rejected: " + kind_name(p.kind) + " " + p.what);
     }, mesh_rekey(text, reason));
     if(!g_log.child && text != sm.text) c.nontrivial(verif::Hash().str(sm.name).str(text).get());
   }
@@ -453,7 +461,7 @@ int main(int argc, char** argv)
   spec.harness = "c11_faults";
   spec.rule = "cases = (seed file, one fault): T every truncation; B every byte position x byte alphabet (substitution) and every byte deletion; "
     "L every line deleted / duplicated; N every numeric token x {+1,-1,0,-1 literal,2^63,2^32,1e9,non-numeric,junk suffix,1e400}; "
-    "S every declared count, dimension, index, type, reference violated one at a time and every element block deleted / duplicated; "
+    "S every declared count, dimension, index, type, reference violated one at a time, every element block deleted / duplicated / moved, a comment line (well-formed / unterminated) after every line; "
     "D2 (thorough) every pair of byte substitutions on the smallest seed; the same T/B/L families on the INI seeds. "
     "A case is non-trivial when the mutated text differs from the seed (hash = seed name + mutated text).";
   spec.bounds_quick = "8 mesh seeds (0.36-1.1 KB: 1D/2D/3D, hypercube/simplex, mesh parts with none/full/parent topology, attribute, Circle/Bezier/Sphere/SurfaceMesh/Extrude charts, partitions) "
@@ -906,6 +914,19 @@ int main(int argc, char** argv)
             }
           }
         }
+      }
+      // ---------------------------------------------------------------- S19: comment lines
+      for(size_t li = 0; li < sm.lines.size(); ++li)
+      {
+        const Line& L = sm.lines[li];
+        const std::string lno = " (after line " + itos((long long)li + 1) + ")";
+        if(L.next >= T.size() && L.kind == Line::close) continue; // nothing is read after the root terminator
+        if(L.kind == Line::close && L.path.empty()) continue;
+        // a well-formed comment line may stand anywhere after the root markup and is ignored
+        if(c.want()) sem("S19 comment-inserted", T.substr(0, L.next) + "  <!-- a comment with <markup> = \"text\" 1 2 3 -->\n" + T.substr(L.next), EX_SAME, "well-formed comment line inserted" + lno);
+        // a comment without terminator is a syntax error
+        if(c.want()) sem("S19 comment-unterminated", T.substr(0, L.next) + "  <!-- a comment without end\n" + T.substr(L.next), EX_REJECT, "unterminated comment line inserted" + lno);
+        if(c.want()) sem("S19 comment-unterminated", T.substr(0, L.next) + "  <!-- a comment without end --\n" + T.substr(L.next), EX_REJECT, "comment line ending in '--' inserted" + lno);
       }
       // ---------------------------------------------------------------- S11: element blocks deleted / duplicated
       for(size_t li = 0; li < sm.lines.size(); ++li)
